@@ -43,6 +43,8 @@ type c08Op struct {
 	Rev0 *bool   `json:"rev0,omitempty"`
 	Av   *bool   `json:"av,omitempty"`
 	Sp   *bool   `json:"sp,omitempty"`
+	Pc   string  `json:"pc,omitempty"` // st: shape of the Paused condition (see c08Rev.Pc); sp = (status True)
+	Ac   string  `json:"ac,omitempty"` // st: shape of the Available condition; av = (status True)
 	Co   *[]int  `json:"co,omitempty"` // absent = nil slice
 	Obj  *[]int  `json:"obj,omitempty"`
 	Sl   *[]int  `json:"sl,omitempty"`  // new: keys of the objects that live in ObjectSlices
@@ -220,6 +222,7 @@ func c08HistExec(h c08Hist) string {
 			if st := live(op.I); st != nil {
 				idx, _ := strconv.Atoi(c08Idx(st.Name))
 				c08SetStatus(st, idx, c08B(op.Av), c08B(op.Sp), c08Keys(op.Co))
+				c08SetCondShapes(st, op.Pc, op.Ac)
 				if st.Status.Revision == 0 {
 					hi++
 					st.Status.Revision = hi
@@ -400,6 +403,16 @@ func c08OpSt(i int, av, sp bool, co []int) c08Op {
 	}
 	return o
 }
+
+// c08Shaped gives a status report explicit condition shapes (every status value, observedGeneration
+// current / stale); av / sp stay what the adapters read of them.
+func c08Shaped(o c08Op, intn func(int) int) c08Op {
+	o.Pc = c08CondShapes[intn(len(c08CondShapes))]
+	o.Ac = c08CondShapes[intn(len(c08CondShapes))]
+	o.Sp, o.Av = c08pb(o.Pc[0] == 'T'), c08pb(o.Ac[0] == 'T')
+	return o
+}
+
 func c08OpEdit(i int, lc string, pbp *bool) c08Op {
 	o := c08Op{Op: "edit", I: c08pi(i), Pbp: pbp}
 	if lc != "" {
@@ -542,7 +555,11 @@ func c08RandHist(x *c08HistRunner, pauseHeavy bool) c08Hist {
 				h.Ops = append(h.Ops, o)
 				next++
 			case p < 93:
-				h.Ops = append(h.Ops, c08OpSt(any(), rng.Intn(2) == 0, rng.Intn(2) == 0, randKeys()))
+				o := c08OpSt(any(), rng.Intn(2) == 0, rng.Intn(2) == 0, randKeys())
+				if rng.Intn(3) == 0 {
+					o = c08Shaped(o, rng.Intn)
+				}
+				h.Ops = append(h.Ops, o)
 			case p < 96:
 				h.Ops = append(h.Ops, c08OpDel(any()))
 			default:
@@ -581,7 +598,11 @@ func c08RandHist(x *c08HistRunner, pauseHeavy bool) c08Hist {
 					co = randKeys()
 				}
 			}
-			h.Ops = append(h.Ops, c08OpSt(i, rng.Intn(4) == 0, rng.Intn(4) != 0, co))
+			o := c08OpSt(i, rng.Intn(4) == 0, rng.Intn(4) != 0, co)
+			if rng.Intn(3) == 0 {
+				o = c08Shaped(o, rng.Intn)
+			}
+			h.Ops = append(h.Ops, o)
 		case p < 78:
 			h.Ops = append(h.Ops, c08OpFin(any()))
 		case p < 83:
